@@ -680,6 +680,11 @@ class BloomFilterOnDisk(BloomFilter):
         super().add_alt(hashes)
         self.__update()
 
+    def clear(self) -> None:
+        """Clear out the bloom filter and the element count stored in the file"""
+        super().clear()
+        self.__update()
+
     @classmethod
     def frombytes(cls, b: ByteString, hash_function: Union[HashFuncT, None] = None) -> "BloomFilterOnDisk":
         """
